@@ -89,6 +89,15 @@ def verify_matches_reference(self: Any, hash: Bytes(len=32), sig: Bytes):
     option(bounded=500)
     requires(ec.parse_strict_der(sig) is not None)
     ensures(result is (ec.decode_point(self) is not None and ec.ecdsa_verify(ec.decode_point(self), hash, *ec.parse_strict_der(sig))))
+    ensures(verify_after_other_key_parsed(bytes(self), hash, sig) is result)
+
+
+def verify_after_other_key_parsed(pub, h, sig):
+    """the verdict of a freshly parsed copy of the key, asked AFTER another (valid) key has been parsed: keys are
+    values, so which key was parsed last must not matter"""
+    a = CPubKey(pub)
+    CPubKey(ec.pubkey_of((0xC0FFEE).to_bytes(32, 'big'), True))
+    return a.verify(bytes(h), bytes(sig))
 
 
 @contract('bitcoin.core.key:CPubKey.__new__', name='pubkey_validity_flags', prop=P)
@@ -130,6 +139,8 @@ def _build_c13(inputs, chain):
         return {'self': k, 'hash': inputs['hash']}
     if kind == 'verify':
         pub = CPubKey(bytes(inputs['pub']['__bytes__']))
+        # another key is parsed AFTER the one under test: a verdict must not depend on which key was parsed last
+        CPubKey(ec.pubkey_of((inputs.get('decoy') or 7).to_bytes(32, 'big'), True))
         return {'self': pub, 'hash': inputs['hash'], 'sig': inputs['sig']}
     raise ValueError(kind)
 
@@ -145,7 +156,16 @@ def _gen_verify(rng):
     k = rng.randrange(1, ec.N)
     r, s = ec.sign_nonce(d, h, k)
     kind = rng.choice(['valid', 'valid', 'twin', 'othermsg', 'otherkey', 'r0', 's0', 'rn', 'sn', 'random', 'r+1', 'bigr',
-                       'offcurve', 'offcurve'])
+                       'offcurve', 'offcurve', 'tiny', 'tiny'])
+    if kind == 'tiny':
+        # the shortest strictly-DER signatures (8 bytes: r and s below 0x80) are valid for the key recovered from them
+        while True:
+            r, s = rng.randint(1, 0x7f), rng.randint(1, 0x7f)
+            q = ec.recover(h, r, s, rng.choice([0, 1]))
+            if q is not None:
+                break
+        return {'__build__': 'c13', '__kind__': 'verify', 'pub': _bj(ec.encode_point(q, rng.random() < 0.5)), 'hash': _bj(h),
+                'sig': _bj(ec.der(r, s)), 'decoy': rng.randrange(1, ec.N)}
     if kind == 'offcurve':
         # a well-sized key that is no curve point: nothing verifies under it, whatever the digest (OpenSSL reports an
         # error, not "bad signature", for such a key)
@@ -173,7 +193,8 @@ def _gen_verify(rng):
         r = (r + 1) % ec.N or 1
     elif kind == 'bigr':
         r = r + ec.N if r + ec.N < 2 ** 256 else r
-    return {'__build__': 'c13', '__kind__': 'verify', 'pub': _bj(pub), 'hash': _bj(h), 'sig': _bj(ec.der(r, s))}
+    return {'__build__': 'c13', '__kind__': 'verify', 'pub': _bj(pub), 'hash': _bj(h), 'sig': _bj(ec.der(r, s)),
+            'decoy': rng.randrange(1, ec.N)}
 
 
 def _gen_pubkey(rng, kind=None):
